@@ -186,3 +186,38 @@ Proof.
     + unfold host_disp_ok. cbn [hi_of_host toy_hd]. exists c, r. split; [reflexivity | lia].
     + split; split; intros H; discriminate H.
 Qed.
+
+(* ---------- the start URLs of the small scope, parsed with the safe host functions ---------- *)
+Definition safe_parse (s : list N) : option url :=
+  match parse_url true safe_hp safe_ho toy_hd None None s with POk u => Some u | _ => None end.
+Definition safe_sparse (s : list N) : option spec_url :=
+  match spec_basic_url_parse safe_shp s None with BDone u => Some u | _ => None end.
+
+Definition start_corrS_safe_b (st : list N) : bool :=
+  match safe_parse st, safe_sparse st with
+  | Some u, Some su => corr_b true toy_shs u su && sane_b su
+  | _, _ => false
+  end.
+
+Lemma starts_corrS_safe_computed : forallb start_corrS_safe_b (small_starts ++ proto_starts) = true.
+Proof. vm_compute. reflexivity. Qed.
+
+(* for the 35 start URLs of the small scope and of the protocol table - special, file, non-special, opaque
+   path, empty host, credentials, port, "/." marker -: every history of the seven setters with any values,
+   every step outside Known_C07 - the ten API strings agree after every prefix *)
+Theorem seven_from_small_starts st ops : In st (small_starts ++ proto_starts) -> seven_ops ops ->
+  forall u, safe_parse st = Some u -> outside_known true safe_hp safe_ho toy_hd u ops ->
+  exists su, safe_sparse st = Some su
+    /\ forall n, exists u' su',
+         model_run true safe_hp safe_ho toy_hd u (firstn n ops) = Some u'
+         /\ spec_run safe_shp su (firstn n ops) = Some su'
+         /\ model_api true u' = Some (spec_api_list toy_shs su').
+Proof.
+  intros Hin Hf u Hp Ho.
+  pose proof (proj1 (forallb_forall _ _) starts_corrS_safe_computed st Hin) as H.
+  unfold start_corrS_safe_b in H. rewrite Hp in H.
+  destruct (safe_sparse st) as [su|]; [|discriminate H]. apply andb_true_iff in H. destruct H as [H1 H2].
+  exists su. split; [reflexivity|].
+  exact (proj2 (seven_from_corrS true safe_hp safe_ho toy_hd safe_shp toy_shs safe_host_fns_ok u su ops
+                  (conj (corr_b_sound _ _ _ _ H1) (sane_b_sound _ H2)) Hf Ho)).
+Qed.
